@@ -330,6 +330,16 @@ func boundProblem(adm []admit, rate int64, burst float64) string {
 	return ""
 }
 
+var payloadBuf []byte
+
+// payload returns n bytes (the rate limiter's IO handler charges one permit per byte of the request).
+func payload(n int) []byte {
+	if n > len(payloadBuf) {
+		payloadBuf = make([]byte, n)
+	}
+	return payloadBuf[:n]
+}
+
 func runRate(c RateCase) (bool, string) {
 	opts := []limiter.Option{}
 	burst := math.Inf(1)
@@ -365,7 +375,7 @@ func runRate(c RateCase) (bool, string) {
 		}
 		before := atomic.LoadInt64(&reached)
 		t0 := time.Now()
-		_, err := client.Request(ctx, make([]byte, s.Tokens))
+		_, err := client.Request(ctx, payload(s.Tokens))
 		t1 := time.Now()
 		forwarded := atomic.LoadInt64(&reached) - before
 		n0, n1 := float64(t0.Sub(tn0)), float64(t1.Sub(tn0))
@@ -408,7 +418,30 @@ func runRate(c RateCase) (bool, string) {
 	return waited, boundProblem(adm, c.Rate, burst)
 }
 
+// genBandwidth: the limiter as a bandwidth cap (permits are bytes): rates of tens of millions to more than
+// a thousand million per second, where one permit is worth a few nanoseconds or less, and requests worth
+// fractions of a millisecond to a few milliseconds each.
+func genBandwidth(rt *rapid.T) RateCase {
+	rate := rapid.SampledFrom([]int64{64 << 20, 70000000, 300000000, 600000000, 1500000000}).Draw(rt, "rate")
+	c := RateCase{
+		Rate:      rate,
+		Burst:     float64(rate) * rapid.SampledFrom([]float64{0, 0, 0.001, 0.005}).Draw(rt, "burstSeconds"),
+		TimeoutUS: rapid.SampledFrom([]int{0, 0, 0, 3000, 10000}).Draw(rt, "timeout"),
+	}
+	n := rapid.IntRange(2, 8).Draw(rt, "n")
+	for i := 0; i < n; i++ {
+		c.Steps = append(c.Steps, rstep{
+			Tokens:  int(float64(rate) * rapid.SampledFrom([]float64{0.0002, 0.001, 0.002, 0.004}).Draw(rt, "seconds")),
+			SleepUS: rapid.SampledFrom([]int{0, 0, 0, 200, 1000}).Draw(rt, "sleep"),
+		})
+	}
+	return c
+}
+
 func genRate(rt *rapid.T) RateCase {
+	if rapid.IntRange(0, 3).Draw(rt, "bandwidth") == 0 {
+		return genBandwidth(rt)
+	}
 	c := RateCase{
 		Rate:      rapid.SampledFrom([]int64{1000, 2000, 5000, 10000, 50000}).Draw(rt, "rate"),
 		Burst:     rapid.SampledFrom([]float64{0, 1, 2, 5, 20}).Draw(rt, "burst"),
@@ -432,6 +465,9 @@ func TestRateSequential(t *testing.T) {
 		classes := []string{"rate"}
 		if c.Burst > 0 {
 			classes = append(classes, "finite-burst")
+		}
+		if c.Rate >= 10000000 {
+			classes = append(classes, "rate-bandwidth")
 		}
 		ev.S.Case("rate-sequential", c.String(), waited, classes...)
 		if problem != "" {
